@@ -402,6 +402,15 @@ func (in *Interp) writeCell(c *Cell, v V) {
 	}
 }
 
+// writeLeaf stores into a leaf cell (trail-logged).
+func (in *Interp) writeLeaf(c *Cell, v V) {
+	in.noteAccess(c, true)
+	if in.trailOn {
+		in.trail = append(in.trail, trailEnt{c: c, old: c.V})
+	}
+	c.V = v
+}
+
 type trailEnt struct {
 	c   *Cell
 	old V
@@ -544,6 +553,9 @@ func (in *Interp) mapFind(m *MapObj, key V) int {
 }
 
 func (in *Interp) mapSet(m *MapObj, key, val V) {
+	if in.spec > 0 && m != nil && (m.ID <= in.specBase) {
+		panic(&specAbort{"map update in region"})
+	}
 	if m == nil {
 		in.goPanicStr("assignment to entry in nil map")
 	}
@@ -585,6 +597,7 @@ func (in *Interp) mapDelete(m *MapObj, key V) {
 	if m == nil {
 		return
 	}
+	in.specAbortIf("map delete in region")
 	pos := in.mapFind(m, key)
 	if pos < 0 {
 		return
